@@ -347,3 +347,36 @@ def add_nan_faults(rng: random.Random, scn: dict, rate: float = 0.5, max_faults:
         else:
             f["col"] = ["c", rng.randrange(nc)]
         scn["faults"].append(f)
+
+
+def add_ties(rng: random.Random, scn: dict, cfg_index: int = 0) -> bool:
+    """Give two or three realizations bit-identical values of every function one of the filters ranks by (exact ties
+    in its sort key), leaving their other functions different.  Returns whether ties were added."""
+    cfg = scn["configs"][cfg_index]
+    filters = cfg.get("realization_filters") or []
+    world = scn["world"]
+    rids = list(world["real_ids"])
+    if not filters or len(rids) < 2 or world.get("identical"):
+        return False
+    # (single sort keys only: a weighted sum of several keys may differ in the last bit between two rows of one matrix
+    # product, which would make "exactly tied" depend on the BLAS kernel)
+    single = [f for f in filters if not (f["method"].endswith("objective") and len(f["options"]["sort"]) != 1)]
+    if not single:
+        return False
+    flt = rng.choice(single)
+    if flt["method"].endswith("objective"):
+        keys = [("o", int(k)) for k in flt["options"]["sort"]]
+    else:
+        keys = [("c", int(flt["options"]["sort"]))]
+    group = rng.sample(rids, min(len(rids), rng.choice([2, 2, 3])))
+    src = min(group)
+    ties = world.setdefault("ties", [])
+    for tag, k in keys:
+        ids = world["obj_ids"] if tag == "o" else world["con_ids"]
+        if k >= len(ids):
+            return False
+        for dst in group:
+            if dst != src:
+                ties.append([tag, ids[k], src, dst])
+    scn["ties"] = True
+    return True
